@@ -3,8 +3,11 @@
 //! the code did as ndjson for TLC to validate.
 mod absx;
 mod astp;
+mod escape;
 mod expand;
 mod iters;
+mod meta;
+mod opts;
 mod rows;
 mod tok;
 mod util;
@@ -22,6 +25,9 @@ fn main() {
         "print" => rows::cmd_print(&opts),
         "expand" => expand::cmd_expand(&opts),
         "iters" => iters::cmd_iters(&opts),
+        "meta" => meta::cmd_meta(&opts),
+        "escape" => escape::cmd_escape(&opts),
+        "opts" => opts::cmd_opts(&opts),
         c => {
             eprintln!("unknown command {}", c);
             std::process::exit(2)
